@@ -282,6 +282,13 @@ void mvsim_global_init(void) {
   g_simstack = mmap(0, SIMSTACK_SIZE, PROT_READ | PROT_WRITE, MAP_PRIVATE | MAP_ANONYMOUS, -1, 0);
   if (g_simstack == MAP_FAILED) { perror("mmap"); _exit(4); }
   mvsim_simstack_top = (void *)(((uintptr_t)g_simstack + SIMSTACK_SIZE - 64) & ~(uintptr_t)15);
+  /* map every worker stack now so that the layout of later mappings does not depend on which
+     runs came before in this process */
+  for (int i = 0; i < NSLOTS; i++) {
+    g_w[i].stack_size = WORKER_STACK_SIZE;
+    g_w[i].stack = mmap(0, WORKER_STACK_SIZE, PROT_READ | PROT_WRITE, MAP_PRIVATE | MAP_ANONYMOUS | MAP_NORESERVE, -1, 0);
+    if (g_w[i].stack == MAP_FAILED) { perror("mmap worker stack"); _exit(4); }
+  }
   install_handlers();
   setvbuf(stdout, 0, _IOLBF, 0);
 }
@@ -342,7 +349,7 @@ void mvsim_begin_run(const mvsim_runcfg *c) {
   g_st.max_workers = 1;
   g_st.signature = 0xcbf29ce484222325ULL;
   ledger_reset();
-  watchdog_arm(120);
+  watchdog_arm(30);
   g_active = 1;
 }
 
